@@ -326,6 +326,10 @@ class SimResultBackend(AsyncResultBackend):  # type: ignore[type-arg]
         if spec.get("delay_us"):
             w.fired("save_delay")
             await asyncio.sleep(spec["delay_us"] / 1e6)
+        if spec.get("cancel"):
+            w.fired("save_cancelled")
+            w.rec("save_exit", d, ok=False, cancelled=True)
+            raise asyncio.CancelledError()
         if spec.get("fail"):
             w.fired("save_fail")
             w.rec("save_exit", d, ok=False)
@@ -467,8 +471,11 @@ def make_middleware(world: "World", idx: int, spec: dict) -> TaskiqMiddleware:
         m = world.msgs.get(k)
         if m is None:
             return
-        for hr in m.get("hook_raise", ()):  # [hook, mw, attempt or None]
+        for hr in m.get("hook_raise", ()):  # [hook, mw, kind]
             if hr[0] == hook and hr[1] == idx:
+                if len(hr) > 2 and hr[2] == "cancel":
+                    world.fired("hook_cancelled")
+                    raise asyncio.CancelledError()     # e.g. a transport dropped the future the hook was awaiting
                 world.fired("hook_raise")
                 raise SimFault(f"hook {hook} of mw{idx} failed")
 
@@ -617,6 +624,9 @@ class World:
         if self.config.get("ack_async", False) or spec.get("async", False):
             async def aack() -> None:
                 w.rec("ack_call", d.id)
+                if spec.get("cancel"):
+                    w.fired("ack_cancelled")
+                    raise asyncio.CancelledError()     # the broker connection dropped its pending futures
                 if delay:
                     w.fired("ack_delay")
                     await asyncio.sleep(delay / 1e6)
